@@ -14,31 +14,64 @@ Module level accepted: imports (the names np, transformers, Network, field, data
 Classes: dataclass fields `name: ann [= const | field(default=const[, init=False]) | field(default_factory=list, init=False)]`;
   the record has the dataclass fields (base class first) followed by the attributes assigned in __post_init__; defaults of
   init fields are not used by any translated code (constructor calls inside the subset must pass every init field).
+  Private helper methods: a method whose name starts with ONE underscore and is not in KEPT_HELPERS (= {_spectrum}, which the
+  model names and which stays its own definition g_<Class>__spectrum) gets NO definition of its own: every call `self._h(a, k=b)`
+  (only on self, only from a method, never from __post_init__) is INLINED: the arguments are evaluated in source order (every
+  parameter must be given exactly once, positionally or by keyword; no defaults), then the body of _h is translated as a block
+  with its parameters standing for the argument values (the parameters, `self` included, may not be rebound in _h; the locals of
+  the inlined body are named h<k>_<name>, fresh names are shared with the caller, so nothing is captured), and the block (a
+  res-valued term) is bound like any other call.  A helper calling itself (directly or through helpers) is refused; a helper that
+  no translated method calls is refused (it would not be translated at all).  A parameter of a helper may be annotated
+  Callable[[T1, ...], T] (Callable imported from typing; Ti, T among float, bool, str, complex and the translated classes): the
+  argument must then be a lambda with that many plain parameters, written at the call site; inside the helper the parameter may
+  only be CALLED, `q(e1, ...)`: the arguments are evaluated (and checked against T1, ...), then the body of the lambda is
+  translated in the scope where the lambda was written, its parameters standing for the argument values, and checked against T.
 Types (from annotations / inference): float -> R, bool, str -> label, Component -> comp, Circuit, list[T], np.ndarray (parameter
   annotation only: a complex array -> list C), complex C, int literals, np.floor results (Z), len / index results (nat),
-  Network -> network C, NetworkSolution -> solution C, class instances, time functions.
+  Network -> network C, NetworkSolution -> solution C, class instances, time functions; three kinds of locals that have no Coq
+  value of their own: a tuple of str constants (compile-time constant), a set under construction (stands for the Coq list of the
+  values added so far, in the order of addition), a Callable parameter of an inlined helper (stands for the lambda given).
 Statements
   NAME = e | self.A = e            (rebinding allowed)
   if c: NAME|self.A = e            (no else; target already bound)      if c: T = e1  else: T = e2   (same target)
   if c: raise Exc(...)             if c: <block ending in return>       return e | return (only __post_init__) | return a, b
+  if s not in T: <A ending in return> / <rest B>   (T a tuple of str constants)  is written  if (s in T) then <B> else <A>
+  NAME = ('a', 'b', ...)           a tuple of str constants: no Coq text; NAME may only appear as `s in NAME` / `s not in NAME`
+                                   (and may not be rebound)
+  NAME = set()                     a fresh empty set: no Coq text; NAME may only appear as receiver of NAME.update(...) in the
+                                   for statement below and as argument of sorted(NAME); never aliased, passed, returned, rebound
+  for v in L: S.update(e)          (S a set local, v a fresh name, not used after the loop; no else; not in __post_init__):
+                                   e (a list / array of numbers or str; may raise) is evaluated for every element of L in order
+                                   -> `let* xs := mapM (fun v => e) L`, the first exception ends the function (S is a local,
+                                   nothing can observe the partial update); then S stands for S ++ concat xs
   raise Exc(<f-string / constant>)
   try: NAME = e / except KeyError|ValueError|IndexError|ZeroDivisionError: return h
-  def f(x: ann): ...               (inner function; may read parameters of the enclosing function that are never assigned)
+  def f(x: ann): ...               (inner function; may read parameters of the enclosing function that are never assigned, and
+                                   tuple-of-str constants of the enclosing function that are bound exactly once, before the def)
 Expressions (evaluation order kept; every operation that can raise becomes a monadic binding)
   literals 0 1 2 (numbers), True False, 'ascii', [], [a, b]; NAME; self.A; x.type x.id (Component); obj.A (class instance); z.real
   x.nodes[i]; float(x.value['K']); L[i]; L[M] (boolean mask); L[::-1]; len(L); len(set(L)) (list of str); L.index(s)
-  sorted(list(set(L))) | sorted(set(L)) (list of float -> rsort_dedup); np.array(L) (identity); np.floor(a); np.arange(k);
+  sorted(list(set(L))) | sorted(set(L)) (list of float -> rsort_dedup); sorted(S) (S a set local of floats that was updated:
+  rsort_dedup of the values added, in the order of addition: the same argument as sorted(set(<the concatenated lists>)));
+  list(A) (A a list or a numpy array: the same elements in order, now a Python list; list(<set>) stays refused);
+  a if c else b (the test, then ONLY the selected operand; either operand may raise -> `if c then <res> else <res>` bound
+  monadically); s in (...) / s not in (...) / s in T (s a str, a literal tuple of str constants or a local bound to one):
+  the left-to-right disjunction of the equalities (negb of it for `not in`);
+  np.array(L) (identity); np.floor(a); np.arange(k) (an array of integers);
   np.sqrt(2) (the constant sqrt2); np.conj(z | L); np.concatenate((A, B)); np.where(M, A, B)
   Python lists and numpy arrays are told apart (both become Coq lists): np.array / np.conj / np.concatenate / np.where return
   arrays; L[M], -L, L/c, L > c are accepted on arrays only (TypeError on a Python list)
   + - * on reals / complex (a real is promoted to complex next to a complex); w*n with n from np.arange (ofZ); k+1 (Z);
+  w*A with w a float and A an np.arange array: elementwise, map (fun n => w * ofZ n) A, a numpy array (the product w*n of the
+  comprehension [w*n for n in A], element by element; A*w and a Python list on the right are refused);
   a/b: b a non-zero constant (2, np.sqrt(2)) -> fdiv, constants 1/2 -> fdiv, otherwise Python floats -> py_div (ZeroDivisionError);
   L/c and -L elementwise; comparisons of len results with literals / each other, of str (== !=), of reals (> >= < <=),
   L > 0 elementwise; `or` / `and` / `not` of operands that cannot raise; x.type in transformers[.keys()]
   [e for v in L [if c]] (c cannot raise); [v for a in L for v in f(a)]
   f(...) module functions (positional / keyword arguments; an omitted float default d of parameter p of f is the section
   variable dflt_<f>_<p>, its source literal recorded as dflt_<f>_<p>_literal); Class(k=v, ...) -> g_<Class>_post_init;
-  self.m(...) ; obj.m(...); s.get_voltage|get_current|get_potential(id) on a NetworkSolution; self.solver(n);
+  self.m(...) ; self._h(...) (a private helper: inlined, see Classes); q(...) (a Callable parameter of an inlined helper);
+  obj.m(...) (never a private helper of another object); s.get_voltage|get_current|get_potential(id) on a NetworkSolution; self.solver(n);
   transformers[x.type](x, a, b); Network(branches=..., node_zero_label=...)
 Idioms (fixed shape, fixed translation; see Model/CircuitGenPrims.v)
   np.vectorize(lambda t: np.array(np.sum([np.abs(V)*np.cos(w*t+np.angle(V)) for V, w in zip(Vs, ws)])))  -> cosine_sum (combine Vs ws)
@@ -59,6 +92,8 @@ SKIPPED_CLASSES = {'CircuitSolution', 'TransientSolution'}
 SKIPPED_FUNCTIONS = {'w'}
 NETSOL_METHODS = {'get_voltage': 'cplx', 'get_current': 'cplx', 'get_potential': 'cplx'}
 SPECIAL = {'__post_init__': 'post_init', '__getitem__': 'getitem'}
+# private methods (one leading underscore) are helpers and are INLINED at their call sites, except those the model names:
+KEPT_HELPERS = {'_spectrum'}
 EXPECTED_IMPORTS = {
     'circuit.py': {
         'np': ('import', 'numpy'), 'transformers': ('from', 1, 'transformers', 'transformers'),
@@ -74,7 +109,7 @@ EXPECTED_IMPORTS = {
 
 def coq_type(t):
     if isinstance(t, tuple):
-        if t[0] in ('list', 'arr'):
+        if t[0] in ('list', 'arr', 'set'):
             if t[1] is None:
                 raise Unsupported('a list whose element type is never determined')
             return f'(list {coq_type(t[1])})'
@@ -101,6 +136,8 @@ class ClassInfo:
         self.name, self.node, self.path = name, node, path
         self.fields = []          # [(attr, type or None, init?)] dataclass fields (without solver), then __post_init__ attributes
         self.methods = {}         # python name -> FunInfo
+        self.helpers = {}         # python name -> ast.FunctionDef of the private methods that are inlined at their call sites
+        self.helper_calls = {}    # python name -> number of call sites at which the helper was inlined
         self.has_solver = False
 
     def ftype(self, attr):
@@ -119,6 +156,7 @@ class Module:
         self.exceptions = {}      # python name -> err constructor
         self.out = []             # Coq text, in order
         self.defaults = {}        # coq variable name -> literal text
+        self.imports = {}         # names bound by the imports of the file being translated
         self.n = 0
 
 
@@ -134,17 +172,19 @@ class Fn:
         self.selfname = None
         self.local_funcs = {}           # inner functions: name -> FunInfo
         self.assigned = set()
-        self.n = 0
+        self.ctr = [0]                  # fresh-name counter (shared with the translation of inlined helpers)
+        self.pfx = 'v_'                 # prefix of the Coq names of Python locals (h<k>_ inside an inlined helper)
+        self.inlining = []              # names of the helpers being inlined (recursion check)
 
     def bad(self, node, what):
         return Unsupported(f'{where(node, self.path)}: {self.info.coq}: {what}')
 
     def fresh(self, stem='x'):
-        self.n += 1
-        return f'{stem}{self.n}'
+        self.ctr[0] += 1
+        return f'{stem}{self.ctr[0]}'
 
     # ------------------------------------------------------------------ types
-    def ann_type(self, a, param=False):
+    def ann_type(self, a, param=False, helper=False):
         if a is None:
             raise self.bad(self.f, 'parameter / field without annotation')
         s = ast.unparse(a)
@@ -158,7 +198,23 @@ class Fn:
         m = re.match(r'list\[(.*)\]\Z', s)
         if m and isinstance(a, ast.Subscript):
             return ('list', self.ann_type(a.slice, param))
+        if helper and isinstance(a, ast.Subscript) and isinstance(a.value, ast.Name) and a.value.id == 'Callable':
+            # Callable[[T1, ...], T]: only as the annotation of a parameter of an inlined helper
+            if self.mod.imports.get('Callable') != ('from', 0, 'typing', 'Callable'):
+                raise self.bad(a, 'Callable is not imported from typing')
+            sl = a.slice
+            if not (isinstance(sl, ast.Tuple) and len(sl.elts) == 2 and isinstance(sl.elts[0], ast.List) and sl.elts[0].elts):
+                raise self.bad(a, f'type annotation {s} (expected Callable[[T1, ...], T])')
+            return ('fn', tuple(self.fn_ann(x) for x in sl.elts[0].elts), self.fn_ann(sl.elts[1]))
         raise self.bad(a, f'type annotation {s}')
+
+    def fn_ann(self, a):
+        """a type inside Callable[[...], ...]: the simple types and the translated classes of this file"""
+        if isinstance(a, ast.Name) and a.id in self.mod.classes and a.id in self.visible and 'post_init' in self.mod.classes[a.id].methods:
+            return ('obj', a.id)
+        if isinstance(a, ast.Name) and a.id in ('float', 'bool', 'str', 'complex'):
+            return self.ann_type(a)
+        raise self.bad(a, f'type {ast.unparse(a)} inside a Callable annotation')
 
     def unify(self, node, t1, t2):
         """the common type of two branches / returns, or Unsupported"""
@@ -266,8 +322,16 @@ class Fn:
             raise self.bad(e, f'constant {v!r}')
         if isinstance(e, ast.Name):
             if e.id in self.env:
-                return [], self.env[e.id][0], self.env[e.id][1]
+                ty = self.env[e.id][1]
+                if isinstance(ty, tuple) and ty[0] in ('strtuple', 'set', 'fn'):
+                    what = {'strtuple': 'a tuple of str constants may only be used as `x in T` / `x not in T`',
+                            'set': 'a set may only be the receiver of .update(...) or the argument of sorted(...) (no aliasing)',
+                            'fn': 'a Callable parameter may only be called'}[ty[0]]
+                    raise self.bad(e, f'{e.id}: {what}')
+                return [], self.env[e.id][0], ty
             raise self.bad(e, f'unbound or unsupported name {e.id}')
+        if isinstance(e, ast.IfExp):
+            return self.ifexp(e, want)
         if isinstance(e, ast.Attribute):
             return self.attribute(e)
         if isinstance(e, ast.Subscript):
@@ -315,6 +379,36 @@ class Fn:
         if isinstance(e, ast.Lambda):
             return self.product_idiom(e)
         raise self.bad(e, f'expression {ast.unparse(e)}')
+
+    def ifexp(self, e, want):
+        """a if c else b: the test first, then ONLY the selected operand (each may raise)"""
+        pc, c, _ = self.typed(e.test, 'bool')
+        p1, t1, y1 = self.expr(e.body, want)
+        p2, t2, y2 = self.expr(e.orelse, want)
+        lit = lambda y: isinstance(y, tuple) and y[0] == 'lit'
+        if want is not None:
+            ty = want
+        elif lit(y1) and lit(y2):
+            raise self.bad(e, 'conditional expression of two bare numeric literals')
+        elif lit(y1) or lit(y2):
+            ty = y2 if lit(y1) else y1
+        else:
+            ty = self.unify(e, y1, y2)
+        t1, _ = self.coerce(e.body, t1, y1, ty)
+        t2, _ = self.coerce(e.orelse, t2, y2, ty)
+        if p1 or p2:
+            x = self.fresh()
+            return pc + [(x, f'if {c} then {self.inline(p1, t1)} else {self.inline(p2, t2)}')], x, ty
+        return pc, f'(if {c} then {t1} else {t2})', ty
+
+    def str_tuple(self, e):
+        """a tuple of str constants (a literal, or a local bound once to such a literal) -> [coq label terms] | None"""
+        if isinstance(e, ast.Tuple) and e.elts and all(isinstance(x, ast.Constant) and isinstance(x.value, str) and SAFE_STR.match(x.value)
+                                                       for x in e.elts):
+            return [f'(lbl "{x.value}")' for x in e.elts]
+        if isinstance(e, ast.Name) and e.id in self.env and isinstance(self.env[e.id][1], tuple) and self.env[e.id][1][0] == 'strtuple':
+            return list(self.env[e.id][1][1])
+        return None
 
     def attribute(self, e):
         if self.is_self(e.value):
@@ -405,6 +499,9 @@ class Fn:
                 x = self.fresh()
                 return pre + [(x, f'py_div {ta} {tb}')], x, 'real'
             raise self.bad(e, f'division {ast.unparse(e)} (kinds {ya} / {yb})')
+        if isinstance(e.op, ast.Mult) and ya == 'real' and yb == ('arr', 'int'):
+            n = self.fresh('n')          # a float times an np.arange array: elementwise, the same product as w*n in a comprehension
+            return pre, f'(map (fun {n} => (fmul R {ta} (ofZ {n}))) {tb})', ('arr', 'real')
         if ya == 'int' and lit(yb) and isinstance(e.op, (ast.Add, ast.Sub)):
             return pre, f'(Z.{"add" if isinstance(e.op, ast.Add) else "sub"} {ta} {yb[1]}%Z)', 'int'
         num = lambda y: y in ('real', 'int', 'cplx') or lit(y)
@@ -419,6 +516,13 @@ class Fn:
         if len(e.ops) != 1:
             raise self.bad(e, f'chained comparison {ast.unparse(e)}')
         o, l, r = e.ops[0], e.left, e.comparators[0]
+        items = self.str_tuple(r) if isinstance(o, (ast.In, ast.NotIn)) else None
+        if items is not None:
+            pre, t, ty = self.expr(l)
+            if ty != 'str':
+                raise self.bad(e, f'membership test {ast.unparse(e)}: the left operand is of kind {ty}, not str')
+            test = '(' + ' || '.join(f'(label_eqb {t} {it})' for it in items) + ')'
+            return pre, test if isinstance(o, ast.In) else f'(negb {test})', 'bool'
         if isinstance(o, ast.In):
             ok = isinstance(r, ast.Name) and r.id == 'transformers' or \
                 (isinstance(r, ast.Call) and isinstance(r.func, ast.Attribute) and r.func.attr == 'keys' and not r.args
@@ -428,7 +532,7 @@ class Fn:
                 pre, t, ty = self.expr(l.value)
                 if ty == 'comp':
                     return pre, f'(in_transformers {t})', 'bool'
-            raise self.bad(e, f'membership test {ast.unparse(e)} (only x.type in transformers[.keys()])')
+            raise self.bad(e, f'membership test {ast.unparse(e)} (only x.type in transformers[.keys()], s in / not in (\'a\', ...))')
         pa, ta, ya = self.expr(l)
         pb, tb, yb = self.expr(r)
         pre = pa + pb
@@ -505,6 +609,8 @@ class Fn:
             return self.numpy_call(e, npf)
         if isinstance(f, ast.Name):
             name = f.id
+            if name in self.env and isinstance(self.env[name][1], tuple) and self.env[name][1][0] == 'fn':
+                return self.apply_closure(e, name)
             if name in self.env:
                 raise self.bad(e, f'call of the local value {name}')
             if name == 'len' and len(e.args) == 1 and not e.keywords:
@@ -527,9 +633,21 @@ class Fn:
                     if ty != ('list', 'real'):
                         raise self.bad(e, f'sorted(set(...)) of a value of kind {ty} (only a list of float)')
                     return pre, f'(rsort_dedup {t})', ty
-                raise self.bad(e, f'{ast.unparse(e)[:60]}: sorted(...) of something else than [list(]set(L)[)]')
+                if isinstance(a, ast.Name) and a.id in self.env and isinstance(self.env[a.id][1], tuple) and self.env[a.id][1][0] == 'set':
+                    t, ty = self.env[a.id]          # a set local: the list of the values added so far, in the order of addition
+                    if ty != ('set', 'real'):
+                        raise self.bad(e, f'sorted(S) of a set of kind {ty} (only a set of float that was updated at least once)')
+                    return [], f'(rsort_dedup {t})', ('list', 'real')
+                raise self.bad(e, f'{ast.unparse(e)[:60]}: sorted(...) of something else than [list(]set(L)[)] or a set local')
+            if name == 'list' and len(e.args) == 1 and not e.keywords and not self.plain_call(e.args[0], 'set'):
+                pre, t, ty = self.expr(e.args[0])       # (a set local is refused by expr)
+                if isinstance(ty, tuple) and ty[0] in ('list', 'arr') and ty[1] is not None \
+                        and not (isinstance(ty[1], tuple) and ty[1][0] == 'litlist'):
+                    return pre, t, ('list', ty[1])      # list(A): the elements of a numpy array / a copy of a list, in order
+                raise self.bad(e, f'list(...) of a value of kind {ty} (only a list or a numpy array)')
             if name in ('set', 'list'):
-                raise self.bad(e, f'{name}(...) outside sorted(list(set(L))) / len(set(L)) (iteration order of a set is unspecified)')
+                raise self.bad(e, f'{name}(...) outside sorted(list(set(L))) / len(set(L)) / S = set() / list(A) '
+                                  f'(iteration order of a set is unspecified)')
             if name in self.local_funcs:
                 info = self.local_funcs[name]
                 pre, ts = self.bind_args(e, info, e.args, e.keywords)
@@ -573,6 +691,8 @@ class Fn:
                     return pre + [(x, f'solver_call {t}')], x, 'netsol'
                 if self.mode == 'init':
                     raise self.bad(e, f'method call self.{f.attr}(...) inside __post_init__')
+                if f.attr in self.cls.helpers:
+                    return self.inline_helper(e, f.attr)
                 return self.method_call(e, [], self.env[self.selfname][0], ('obj', self.cls.name), f.attr)
             if f.attr == 'index' and len(e.args) == 1 and not e.keywords:
                 pre, t, ty = self.expr(f.value)
@@ -606,6 +726,8 @@ class Fn:
         if isinstance(ty, tuple) and ty[0] == 'obj':
             ci = self.mod.classes[ty[1]]
             key = SPECIAL.get(meth, meth)
+            if meth in ci.helpers:
+                raise self.bad(e, f'the private helper {ty[1]}.{meth} is called from outside its own instance (only self.{meth}(...))')
             if key in ci.methods and key != 'post_init' and ci.methods[key].ret is not None:
                 info = ci.methods[key]
                 pa, ts = self.bind_args(e, info, e.args, e.keywords, skip_first=1)
@@ -613,6 +735,102 @@ class Fn:
                 return pre + pa + [(x, ' '.join([info.coq, t] + ts))], x, info.ret
             raise self.bad(e, f'method {ty[1]}.{meth} is not translated (or is called before its translation: recursion)')
         raise self.bad(e, f'method .{meth} of a value of kind {ty}')
+
+    # ------------------------------------------------------------------ private helpers (inlined) and Callable parameters
+    def helper_params(self, node):
+        f, a = node, node.args
+        if f.decorator_list:
+            raise self.bad(f, f'decorated helper {f.name}')
+        if a.kwarg or a.kwonlyargs or a.posonlyargs or a.vararg or a.defaults or not a.args or a.args[0].annotation is not None:
+            raise self.bad(f, f'helper {f.name}: parameters are not (self, p: ann, ...) without defaults')
+        out = []
+        for x in a.args[1:]:
+            if x.annotation is None:
+                raise self.bad(f, f'helper {f.name}: parameter {x.arg} without annotation')
+            out.append((x.arg, self.ann_type(x.annotation, param=True, helper=True), None))
+        if len({p[0] for p in out} | {a.args[0].arg}) != len(out) + 1:
+            raise self.bad(f, f'helper {f.name}: a parameter name is used twice')
+        return out
+
+    def inline_helper(self, e, name):
+        """self._h(args): the arguments in source order, then the body of _h with its parameters standing for the argument
+        values (each parameter of _h is assigned nowhere in _h) -> a res-valued term bound to a fresh name"""
+        node = self.cls.helpers[name]
+        if name in self.inlining:
+            raise self.bad(e, f'the helper {name} calls itself (recursion)')
+        params = self.helper_params(node)
+        given, order = {}, []
+        if len(e.args) > len(params):
+            raise self.bad(e, f'too many positional arguments for {name}')
+        for p, a in zip(params, e.args):
+            given[p[0]] = a
+            order.append(p[0])
+        for k in e.keywords:
+            if k.arg is None or k.arg in given or k.arg not in [p[0] for p in params]:
+                raise self.bad(e, f'keyword argument {k.arg} of {name}')
+            given[k.arg] = k.value
+            order.append(k.arg)
+        if set(given) != {p[0] for p in params}:
+            raise self.bad(e, f'{name}(...): every parameter must be given exactly once')
+        ptypes = {p[0]: p[1] for p in params}
+        pre, bound = [], {}
+        for pname in order:                       # evaluated in source order, before the body
+            a, pt = given[pname], ptypes[pname]
+            if isinstance(pt, tuple) and pt[0] == 'fn':
+                if not (isinstance(a, ast.Lambda) and not a.args.defaults and not a.args.vararg and not a.args.kwarg
+                        and not a.args.kwonlyargs and not a.args.posonlyargs and len(a.args.args) == len(pt[1])):
+                    raise self.bad(a, f'{name}({pname}=...): a Callable parameter must be given a lambda with {len(pt[1])} plain parameter(s)')
+                bound[pname] = (('closure', a, self), pt)
+                continue
+            p, t, y = self.typed(a, pt)
+            if isinstance(y, tuple) and (y[0] == 'lit' or (y[0] == 'list' and (y[1] is None or isinstance(y[1], tuple) and y[1][0] == 'litlist'))):
+                raise self.bad(a, f'{name}({pname}=...): a bare literal whose kind is not determined')
+            pre += p
+            bound[pname] = (t, y)
+        info = FunInfo(name, f'{self.info.coq} (inlined {name})', [], node, self.path)
+        sub = Fn(self.mod, node, self.path, info, cls=self.cls, mode='method', visible=self.visible)
+        sub.ctr = self.ctr
+        sub.pfx = self.fresh('h') + '_'
+        sub.inlining = self.inlining + [name]
+        sub.selfname = node.args.args[0].arg
+        sub.env = {sub.selfname: self.env[self.selfname]}
+        for pname, b in bound.items():
+            sub.check_local_name(node, pname)
+            sub.env[pname] = b
+        assigned = {t.id for st in ast.walk(node) if isinstance(st, (ast.Assign, ast.AugAssign, ast.AnnAssign, ast.For, ast.comprehension, ast.NamedExpr))
+                    for tt in (st.targets if isinstance(st, ast.Assign) else [st.target]) for t in ast.walk(tt) if isinstance(t, ast.Name)}
+        assigned |= {x.arg for lam in ast.walk(node) if isinstance(lam, ast.Lambda) for x in lam.args.args}
+        clash = assigned & ({p[0] for p in params} | {sub.selfname})
+        if clash:
+            raise self.bad(node, f'helper {name} rebinds its parameter(s) {sorted(clash)}')
+        text = sub.block(list(node.body), '      ')
+        self.cls.helper_calls[name] = self.cls.helper_calls.get(name, 0) + 1
+        lines = text.rstrip().splitlines()
+        term = '(' + lines[0].strip() + ')' if len(lines) == 1 else '(\n' + text.rstrip() + ')'
+        x = self.fresh()
+        return pre + [(x, term)], x, info.ret
+
+    def apply_closure(self, e, name):
+        """q(args) with q a Callable parameter of an inlined helper, bound to a lambda of the caller: the arguments, then the
+        body of the lambda in the scope where the lambda was written"""
+        (_, lam, owner), (_, ptys, rty) = self.env[name]
+        if e.keywords or len(e.args) != len(ptys):
+            raise self.bad(e, f'{name}(...): call shape of a Callable parameter')
+        pre, locs = [], {}
+        for a, pt, x in zip(e.args, ptys, lam.args.args):
+            p, t, y = self.typed(a, pt)
+            pre += p
+            if x.arg in locs:
+                raise self.bad(lam, 'lambda with a repeated parameter')
+            locs[x.arg] = (t, y)
+
+        def body():
+            for n in locs:
+                if n in owner.env and owner.env[n][0] is not None and isinstance(owner.env[n][1], tuple) and owner.env[n][1][0] == 'fn':
+                    raise self.bad(lam, f'lambda parameter {n} shadows a Callable parameter')
+            return owner.typed(lam.body, rty)
+        pb, tb, yb = owner.with_local(locs, body)
+        return pre + pb, tb, yb
 
     def numpy_call(self, e, f):
         if e.keywords:
@@ -629,7 +847,7 @@ class Fn:
             return pre, f'(flr {t})', 'int'
         if f == 'arange' and n == 1:
             pre, t, _ = self.typed(e.args[0], 'int')
-            return pre, f'(np_arange {t})', ('list', 'int')
+            return pre, f'(np_arange {t})', ('arr', 'int')
         if f == 'sqrt' and n == 1:
             a = e.args[0]
             if isinstance(a, ast.Constant) and a.value == 2 and isinstance(a.value, int) and not isinstance(a.value, bool):
@@ -687,7 +905,7 @@ class Fn:
         pre, src, sty = self.expr(g.iter)
         if not (isinstance(sty, tuple) and sty[0] in ('list', 'arr') and sty[1] is not None and not (isinstance(sty[1], tuple) and sty[1][0] == 'litlist')):
             raise self.bad(e, f'comprehension over a value of kind {sty}')
-        v = 'v_' + g.target.id
+        v = self.pfx + g.target.id
         if len(gens) == 2:
             g2 = gens[1]
             if g.ifs or g2.ifs or not (isinstance(g2.target, ast.Name) and isinstance(e.elt, ast.Name) and e.elt.id == g2.target.id):
@@ -818,7 +1036,7 @@ class Fn:
         raise self.bad(st, f'assignment target {ast.unparse(t)}')
 
     def bind_target(self, kind, name, ty):
-        coq = ('v_' if kind == 'local' else 'self_') + name
+        coq = (self.pfx if kind == 'local' else 'self_') + name
         (self.env if kind == 'local' else self.attrs)[name] = (coq, ty)
         return coq
 
@@ -828,6 +1046,17 @@ class Fn:
     def assign_text(self, st, ind):
         kind, name = self.target(st)
         old = self.lookup_target(kind, name)
+        v = st.value
+        if old is not None and isinstance(old[1], tuple) and old[1][0] in ('strtuple', 'set', 'fn'):
+            raise self.bad(st, f'{name} (a tuple constant / a set / a Callable parameter) is rebound')
+        if kind == 'local' and isinstance(v, ast.Tuple) and self.str_tuple(v) is not None:
+            # NAME = ('a', 'b', ...): a compile-time constant, usable only in membership tests; no Coq text
+            self.env[name] = (None, ('strtuple', tuple(self.str_tuple(v))))
+            return ''
+        if kind == 'local' and self.plain_call(v, 'set') and not v.args and not v.keywords:
+            # NAME = set(): a fresh empty set, kept as the list of the values added to it (no Coq text; never aliased)
+            self.env[name] = ('[]', ('set', None))
+            return ''
         want = old[1] if old is not None else (self.cls.ftype(name) if kind == 'attr' else None)
         pre, t, ty = self.expr(st.value, want)
         if want is not None:
@@ -898,14 +1127,25 @@ class Fn:
             return self.if_text(st, rest, ind)
         if isinstance(st, ast.Try):
             return self.try_text(st, rest, ind)
+        if isinstance(st, ast.For):
+            return self.for_text(st, rest, ind)
         if isinstance(st, ast.FunctionDef):
             self.inner_function(st)
             return self.block(rest, ind)
         raise self.bad(st, f'statement {type(st).__name__}: {ast.unparse(st).splitlines()[0][:70]}')
 
     def if_text(self, st, rest, ind):
-        pre, cond, _ = self.typed(st.test, 'bool')
         body, orelse = st.body, st.orelse
+        t = st.test
+        if not orelse and isinstance(body[-1], (ast.Return, ast.Raise)) and isinstance(t, ast.Compare) and len(t.ops) == 1 \
+                and isinstance(t.ops[0], ast.NotIn) and self.str_tuple(t.comparators[0]) is not None:
+            # `if s not in T: <A ending in return>` / <B>  is written  if (s in T) then <B> else <A>
+            pos = ast.copy_location(ast.Compare(left=t.left, ops=[ast.In()], comparators=t.comparators), t)
+            pre, cond, _ = self.typed(pos, 'bool')
+            other = self.branch_block(body, ind)
+            cont = self.block(rest, ind + '  ')
+            return self.binds(pre, f'{ind}if {cond} then\n{cont}{ind}else\n{other}', ind)
+        pre, cond, _ = self.typed(st.test, 'bool')
         if not orelse and isinstance(body[-1], (ast.Return, ast.Raise)):
             then = self.branch_block(body, ind + '  ')
             return self.binds(pre, f'{ind}if {cond} then\n{then}{ind}else\n', ind) + self.block(rest, ind)
@@ -936,6 +1176,42 @@ class Fn:
                 line = f'{ind}let {coq} := if {cond} then {t1} else {t2} in\n'
             return self.binds(pre, line, ind) + self.block(rest, ind)
         raise self.bad(st, 'if statement shape (see the module docstring)')
+
+    def for_text(self, st, rest, ind):
+        """for v in L: S.update(e)   (S a set local): e is evaluated for every element in order (the first exception ends
+        the loop and the function: S is a local, nothing observes the partial update), then all the values join S in order"""
+        shape = 'for statement shape (only `for v in L: S.update(e)` with S a set local)'
+        if st.orelse or not isinstance(st.target, ast.Name) or len(st.body) != 1 or self.mode == 'init' or getattr(st, 'type_comment', None):
+            raise self.bad(st, shape)
+        b = st.body[0]
+        if not (isinstance(b, ast.Expr) and isinstance(b.value, ast.Call) and isinstance(b.value.func, ast.Attribute)
+                and b.value.func.attr == 'update' and isinstance(b.value.func.value, ast.Name) and len(b.value.args) == 1
+                and not b.value.keywords):
+            raise self.bad(st, shape)
+        sname, var = b.value.func.value.id, st.target.id
+        if not (sname in self.env and isinstance(self.env[sname][1], tuple) and self.env[sname][1][0] == 'set'):
+            raise self.bad(st, shape)
+        self.check_local_name(st, var)
+        if var in self.env or var == sname or (self.outer is None and var in [p[0] for p in self.info.params]):
+            raise self.bad(st, f'the loop variable {var} rebinds a name that is already bound')
+        pre, src, sty = self.expr(st.iter)
+        if not (isinstance(sty, tuple) and sty[0] in ('list', 'arr') and sty[1] is not None and not (isinstance(sty[1], tuple) and sty[1][0] == 'litlist')):
+            raise self.bad(st, f'for loop over a value of kind {sty}')
+        v = self.pfx + var
+        pe, te, ye = self.with_local({var: (v, sty[1])}, lambda: self.expr(b.value.args[0]))
+        if not (isinstance(ye, tuple) and ye[0] in ('list', 'arr') and ye[1] is not None and not isinstance(ye[1], tuple)):
+            raise self.bad(st, f'S.update(...) of a value of kind {ye} (only a list / array of numbers or str)')
+        old, oty = self.env[sname]
+        if oty[1] is not None and oty[1] != ye[1]:
+            raise self.bad(st, f'a set of {oty[1]} is updated with values of kind {ye[1]}')
+        if pe:
+            x = self.fresh()
+            pre = pre + [(x, f'mapM (fun {v} => {self.inline(pe, te)}) {src}')]
+            added = f'(List.concat {x})'
+        else:
+            added = f'(List.concat (map (fun {v} => {te}) {src}))'
+        self.env[sname] = (added if old == '[]' else f'({old} ++ {added})', ('set', ye[1]))
+        return self.binds(pre, '', ind) + self.block(rest, ind)
 
     def try_text(self, st, rest, ind):
         ok = len(st.body) == 1 and isinstance(st.body[0], ast.Assign) and len(st.handlers) == 1 and not st.orelse \
@@ -968,11 +1244,23 @@ class Fn:
         pnames = [p[0] for p in self.info.params]
         all_assigned = {t.id for s in ast.walk(self.f) if isinstance(s, ast.Assign) for t in s.targets if isinstance(t, ast.Name)
                         and s not in list(ast.walk(node))}
+        consts = [n for n in free if isinstance(self.env[n][1], tuple) and self.env[n][1][0] == 'strtuple']
+        free = [n for n in free if n not in consts]
         for n in free:
             if n not in pnames or n in all_assigned:
                 raise self.bad(node, f'inner function {node.name} reads {n}, which is not a never-assigned parameter of {self.f.name}')
+        for n in consts:
+            # a tuple constant of the enclosing function: bound exactly once (before this def), nowhere else
+            binders = [t for s in ast.walk(self.f) if isinstance(s, (ast.Assign, ast.AugAssign, ast.AnnAssign, ast.For, ast.comprehension, ast.NamedExpr))
+                       for tt in (s.targets if isinstance(s, ast.Assign) else [s.target]) for t in ast.walk(tt)
+                       if isinstance(t, ast.Name) and t.id == n]
+            args = [a for fn_ in ast.walk(self.f) if isinstance(fn_, (ast.FunctionDef, ast.Lambda)) for a in fn_.args.args if a.arg == n]
+            if len(binders) != 1 or args or n in pnames:
+                raise self.bad(node, f'inner function {node.name} reads the constant {n}, which is bound more than once in {self.f.name}')
         info = FunInfo(node.name, f'{self.info.coq}_{node.name}', [], node, self.path, captured=[self.env[n][0] for n in free])
         fn = Fn(self.mod, node, self.path, info, mode='function', visible=self.visible, outer=self)
+        for n in consts:
+            fn.env[n] = self.env[n]
         fn.translate(extra=[(n, self.env[n][1]) for n in free])
         self.local_funcs[node.name] = info
 
@@ -1087,12 +1375,23 @@ def parse_fields(mod, node, path, helper):
     return out, has_solver
 
 
-def method_deps(node, names):
+def is_helper_name(name):
+    return name.startswith('_') and not name.startswith('__') and name not in KEPT_HELPERS
+
+
+def method_deps(node, names, helpers=None, seen=()):
+    """the methods of the class that `node` calls on self, looking through the (inlined) helpers"""
     deps = set()
+    if not node.args.args:
+        return deps
     for n in ast.walk(node):
         if isinstance(n, ast.Call) and isinstance(n.func, ast.Attribute) and isinstance(n.func.value, ast.Name) \
                 and n.func.value.id == node.args.args[0].arg and n.func.attr in names:
-            deps.add(n.func.attr)
+            if helpers and n.func.attr in helpers:
+                if n.func.attr not in seen:
+                    deps |= method_deps(helpers[n.func.attr], names, helpers, tuple(seen) + (n.func.attr,))
+            else:
+                deps.add(n.func.attr)
     return deps
 
 
@@ -1113,6 +1412,7 @@ def translate_class(mod, node, path, visible, base_fields):
     names = [m.name for m in methods]
     if len(set(names)) != len(names):
         raise Unsupported(f'{where(node, path)}: class {node.name}: a method is defined twice')
+    ci.helpers = {m.name: m for m in methods if is_helper_name(m.name)}
     ci.fields = [(n, t, i) for n, t, i, _, _ in fields]
     ci.defaults = {n: d for n, _, _, d, _ in fields if d is not None}
     ci.initial = {n: v for n, _, _, _, v in fields if v is not None}
@@ -1138,8 +1438,8 @@ def translate_class(mod, node, path, visible, base_fields):
                    f'Record {node.name} := {{ {rec} }}.\n')
     mod.out.append(text)
     # the other methods, callees first
-    todo = [m for m in methods if m.name != '__post_init__']
-    deps = {m.name: method_deps(m, set(names)) - {m.name, '__post_init__'} for m in todo}
+    todo = [m for m in methods if m.name != '__post_init__' and m.name not in ci.helpers]
+    deps = {m.name: method_deps(m, set(names), ci.helpers) - {m.name, '__post_init__'} for m in todo}
     done = set()
     while todo:
         ready = [m for m in todo if deps[m.name] <= done]
@@ -1154,6 +1454,10 @@ def translate_class(mod, node, path, visible, base_fields):
         ci.methods[key] = info
         Fn(mod, m, path, info, cls=ci, mode='method', visible=visible).translate()
         done.add(m.name)
+    for h, m in ci.helpers.items():
+        if not ci.helper_calls.get(h):
+            raise Unsupported(f'{where(m, path)}: class {node.name}: the private helper {h} is never called by a translated method '
+                              f'(helpers are translated only where they are inlined)')
 
 
 # ---------------------------------------------------------------------- modules
@@ -1197,6 +1501,7 @@ def translate_module(mod, src, fname):
     path = os.path.join(src, 'Circuit', fname)
     tree = parse(path)
     bound = check_imports(tree, path, EXPECTED_IMPORTS[fname])
+    mod.imports = bound
     visible = {n for n in EXPECTED_IMPORTS[fname] if n in ('np', 'transformers', 'Network')}
     for n in ('Circuit', 'transform', 'frequency_components'):
         if fname == 'solution.py' and n in EXPECTED_IMPORTS[fname]:
